@@ -391,3 +391,100 @@ def check_name_grammar(facts, rep, repo='/repo'):
                       (pats, len(bad), total, ', '.join(sorted(bad)[:4]), sorted(bad)[0].split('/')[1], sorted(bad)[0]), where=b.where())
     else:
         rep.ok('E10.R8-name-grammar', inst, '%d names, patterns %s' % (total, pats))
+
+
+def check_pair_order(facts, rep):
+    """R9 (C20, "the table lists the groups for the parameters given"): `-c h,t` is read as (h, t) - parse_pair returns
+    (the text before the comma, the text after it), whichever way it cuts the string. The two pieces are classified from
+    the call that produced them: regex captures of `(..),(..)` (group 1 / 2), split_once (.0 / .1), and the k-th `next()`
+    of split / splitn (k-th piece from the left) or rsplit / rsplitn (k-th piece from the *right*). A swapped pair is
+    still a valid parameter pair: nothing fails, the table is the one of (t, h)."""
+    from symex import SymEx, strip, show
+    b = facts.bodies.get('ykh::app::utils::helper::parse_pair')
+    if b is None:
+        rep.indet('E10.R9: helper::parse_pair not found')
+        return
+    rep.saw(b)
+    inst = 'parse_pair|"a,b" is returned as (a, b)'
+    seen = []
+    unknown = []
+    for p in SymEx(b, havoc_loops=True, max_paths=5000).run():
+        r = p.ret
+        if p.end != 'return' or r is None:
+            continue
+        s = show(r, -1000)
+        if not s.startswith('Result::Ok{'):
+            continue
+        tup = None
+        for y in __import__('symex').subterms(r):
+            if isinstance(y, tuple) and y and y[0] == 'tuple' and len(y[1]) == 2:
+                tup = y
+                break
+        if tup is None:
+            unknown.append(s[:80])
+            continue
+        nexts = [e for e in p.calls() if e.name.split('::')[-1] == 'next']
+
+        def piece(t):
+            """'before' / 'after' / 'whole' / None"""
+            t = strip(t)
+            if t[0] == 'field' and t[2] == 'Ok.0':
+                t = strip(t[1])
+            if not (t[0] == 'call' and t[1].split('::')[-1] in ('from_str', 'parse') and t[2]):
+                if t[0] == 'call' and t[1].split('::')[-1] in ('zero', 'one', 'default') and not t[2]:
+                    return 'const'
+                return None
+            x = strip(t[2][0])
+            if x == ('arg', 1) or (x[0] == 'call' and x[1].split('::')[-1] in ('deref', 'as_str', 'trim') and strip(x[2][0]) == ('arg', 1)):
+                return 'whole'
+            if x[0] == 'call' and x[1].split('::')[-1] == 'index' and len(x[2]) == 2 and x[2][1][0] == 'const':
+                src = show(x[2][0], -1000)
+                m = re.search(r'captures\(&?unwrap\(new\("\^?\((?:[^()]|\\.)+\),\((?:[^()]|\\.)+\)\$?"\)', re.sub(r'#(?:i\d+:)?\d+\.\d+', '', src))
+                if m:
+                    return {1: 'before', 2: 'after'}.get(x[2][1][1])
+                return None
+            if x[0] == 'call' and x[1].split('::')[-1] == 'as_str' and x[2]:
+                x = strip(x[2][0])
+            if x[0] == 'field' and x[2] in ('Some.0.0', 'Some.0.1') and strip(x[1])[0] == 'call' and strip(x[1])[1].split('::')[-1] in ('split_once', 'rsplit_once'):
+                return 'before' if x[2].endswith('.0') else 'after'
+            if x[0] == 'field' and x[2] in ('0', '1') and strip(x[1])[0] == 'field' and strip(x[1])[2] == 'Some.0':
+                c = strip(strip(x[1])[1])
+                if c[0] == 'call' and c[1].split('::')[-1] in ('split_once', 'rsplit_once'):
+                    return 'before' if x[2] == '0' else 'after'
+            if x[0] == 'field' and x[2] == 'Some.0' and strip(x[1])[0] == 'call' and strip(x[1])[1].split('::')[-1] == 'next':
+                site = strip(x[1])[3] if len(strip(x[1])) > 3 else None
+                ev = [e for e in nexts if e.site == site]
+                if not ev or not ev[0].pre:
+                    return None
+                k = 0
+                v = ev[0].pre[0]
+                while v[0] == 'post':
+                    k += 1
+                    v = v[2]
+                v = strip(v)
+                if v[0] != 'call' or k > 1:
+                    return None
+                how = v[1].split('::')[-1]
+                sep = show(v[2][-1], -1000) if v[2] else ''
+                if sep not in ('44', "','", '","'):
+                    return None
+                if how in ('split', 'splitn'):
+                    return ('before', 'after')[k]
+                if how in ('rsplit', 'rsplitn'):
+                    return ('after', 'before')[k]
+                return None
+            return None
+        pa, pb = piece(tup[1][0]), piece(tup[1][1])
+        if (pa, pb) == ('whole', 'const'):
+            continue
+        seen.append((pa, pb, s[:120]))
+    good = [x for x in seen if x[:2] == ('before', 'after')]
+    bad = [x for x in seen if x[:2] == ('after', 'before')]
+    if bad:
+        rep.violation('E10.R9-pair-order', inst,
+                      'parse_pair returns (text after the comma, text before it): `-c h,t` is taken as (t, h) - a valid pair, so the command runs and prints the table of other parameters (and `-c 0,T -r`, which must be rejected, is accepted as t = 0)',
+                      where=b.where())
+    elif good and len(good) == len(seen) and not unknown:
+        rep.ok('E10.R9-pair-order', inst, '(before, after) on %d returning path(s)' % len(good))
+    else:
+        rep.indet('E10.R9: parse_pair builds its pair outside the recognised fragment: %s %s' % ([x[:2] for x in seen], unknown[:2]))
